@@ -14,7 +14,7 @@ import sys
 
 VERIF = os.path.dirname(os.path.dirname(os.path.abspath(__file__)))
 REPO = os.environ.get('VP_RUN_REPO') or '/repo'
-SCR = os.path.join(VERIF, 'build', 'regress_scratch')
+SCR = os.path.join(VERIF, 'build', 'regress_scratch' + os.environ.get('REGRESS_TAG', ''))
 
 BY_FILE = {
     'ops.rs': ['C01', 'C02', 'C03', 'C04', 'C05', 'C06', 'C07', 'C10', 'C19'],
